@@ -1,6 +1,6 @@
 // C02 driver: Union (with reported / pre-filled maps), UnionDisjointStates (only for disjoint operands),
 // Intersection and IntersectionBU (with reported product maps), operands re-read afterwards.
-// case:   bin <T A> <T B> PL <n> {k v}* PR <n> {k v}*
+// case:   bin <T A> <T B> PL <n> {k v}* PR <n> {k v}* [SHARE <k>]
 // output: U <T> ML <n> {k v}* MR <n> {k v}* D (<T> | SKIP) X <T> PM <n> {p q s}* XB <T> PM <n> {p q s}* I <T A> <T B>
 #include "common.hh"
 #include <map>
@@ -25,7 +25,19 @@ int main() {
 			VATA::AutBase::StateToStateMap ml, mr;
 			t.expect("PL"); U n = t.num(); for (U i = 0; i < n; ++i) { U k = t.num(); U v = t.num(); ml[k] = v; }
 			t.expect("PR"); n = t.num(); for (U i = 0; i < n; ++i) { U k = t.num(); U v = t.num(); mr[k] = v; }
-			Aut A = mkAut(a), B = mkAut(b);
+			// optional "SHARE k": the first k rules of A and B are a common base; the operands are then built as copies of one
+			// base automaton that are modified afterwards, so that they physically share rule storage (copy-on-write)
+			U share = 0; if (!t.done() && t.word() == "SHARE") share = t.num();
+			Aut A, B;
+			if (share > 0 && share <= a.rules.size() && share <= b.rules.size()) {
+				Aut base;
+				for (U i = 0; i < share; ++i) { const Rule& r = a.rules[i]; Aut::StateTuple tup(r.ch.begin(), r.ch.end()); base.AddTransition(tup, r.sym, r.par); }
+				A = base; B = base;
+				for (U i = share; i < a.rules.size(); ++i) { const Rule& r = a.rules[i]; Aut::StateTuple tup(r.ch.begin(), r.ch.end()); A.AddTransition(tup, r.sym, r.par); }
+				for (U i = share; i < b.rules.size(); ++i) { const Rule& r = b.rules[i]; Aut::StateTuple tup(r.ch.begin(), r.ch.end()); B.AddTransition(tup, r.sym, r.par); }
+				for (U f : a.finals) A.SetStateFinal(f);
+				for (U f : b.finals) B.SetStateFinal(f);
+			} else { A = mkAut(a); B = mkAut(b); }
 			std::ostringstream os;
 			Aut u = Aut::Union(A, B, &ml, &mr);
 			os << "U " << showTA(obsAut(u)); showMap(os, "ML", ml); showMap(os, "MR", mr);
